@@ -704,6 +704,10 @@ class Interp:
                 m_ = self.prog.lookup(tcls, "__mul__") if tcls is not None else None
                 if m_ is not None:
                     return self.run_method(m_, l, [r], {})
+            if isinstance(e.op, (ast.Sub, ast.Mod, ast.FloorDiv)) and isinstance(l, list) and l and all(isinstance(x, int) and not isinstance(x, bool) for x in l) \
+                    and isinstance(r, int) and not isinstance(r, bool) and (r != 0 or isinstance(e.op, ast.Sub)):
+                # an integer index array (np.arange) minus / modulo an integer: elementwise (a python list has none of these operators, so this is unambiguous)
+                return [_INT_OPS[type(e.op)](x, r) for x in l]
             if isinstance(l, SymObject) or isinstance(r, SymObject):
                 raise Unknown("arithmetic on a library object")
             if isinstance(l, int) and isinstance(r, int) and not isinstance(l, bool) and not isinstance(r, bool) and isinstance(e.op, (ast.Add, ast.Sub, ast.Mult)):
@@ -1246,6 +1250,11 @@ class Interp:
                 v = self.ev(e.args[0], env)
                 if isinstance(v, int) and not isinstance(v, bool) and 0 <= v <= 8:
                     return list(range(v))
+            if name == "bool" and len(e.args) == 1 and isinstance(f, ast.Name):
+                v = self.ev(e.args[0], env)
+                if isinstance(v, bool):
+                    return v
+                return Opaque("bool of a value that is not a truth value")
             if name in ("float", "int") and len(e.args) == 1:
                 v = self.ev(e.args[0], env)
                 if isinstance(v, LP) and len(v.t) <= 1 and (not v.t or () in v.t) and name == "int":
